@@ -544,8 +544,14 @@ def remap_by_types(
             elif len(call_node.args) == 1:
                 # The nested lambda belongs to the query being built: it is followed (and edited)
                 # in place. Lambdas handed in by the user are copied first (see `parse_as_ast`).
-                call_node.args[0]._followed_in_place = True  # type: ignore
-                r = call_method(call_node.args[0], known_types=self._found_types)
+                nested_lambda = call_node.args[0]
+                nested_lambda._followed_in_place = True  # type: ignore
+                try:
+                    r = call_method(nested_lambda, known_types=self._found_types)
+                finally:
+                    # The finished query carries no mark: one of its lambdas handed to another
+                    # stream later is copied like any other.
+                    nested_lambda.__dict__.pop("_followed_in_place", None)
             else:
                 return None
 
